@@ -36,12 +36,57 @@ def solver_fallback(chk):
     return run
 
 
+def run_case(c):
+    from rtc import oracle
+    if c["solver"] == "scipy":
+        fails = oracle.check_adaptive_run(c["model"], c["T"], c["dt"], c["dts"], c["vec"], method=c.get("method", "RK45"))
+    else:
+        fails = oracle.check_fixed_step_run(c["model"], c["T"], c["dt"], c["dts"], c["solver"], c["vec"], c.get("cutoff", 0.0))
+    return dict(status="violated" if fails else "ok", fails=fails[:2])
+
+
+def run_cases_for(chk):
+    from rtc import gen, driver
+    pick = ("F1-chain-123", "F6-fanin-two-inputs", "F2-parallel-2", "F7-hierarchy-1", "F8-ring2-6")
+    if chk.tier == "thorough":
+        pick = pick + ("F1-chain-321", "F3-multi-input-wu", "F8-dense-4", "F5-names-r-rr")
+    fam = [x for x in gen.c01_structured() if x[0] in pick]
+    grid = [(1.0, 0.1, None), (1.0, 0.1, 0.2), (0.9, 0.1, 0.3), (1.0, 0.05, 0.25), (0.5, 0.1, 0.5)]
+    if chk.tier == "thorough":
+        grid += [(2.0, 0.01, 0.05), (1.2, 0.1, 0.1), (1.5, 0.05, 0.15), (0.3, 0.1, 0.1), (0.1, 0.1, None)]
+    cuts = [0.0, 0.25] if chk.tier == "quick" else [0.0, 0.25, 0.5, 0.07]
+    cases = []
+    for t, f, m in fam:
+        for solver in ("euler", "heun"):
+            for (T, dt, dts) in grid:
+                for cutoff in cuts:
+                    for vec in ((False,) if chk.tier == "quick" and cutoff else (False, True)):
+                        cases.append(dict(tag=f"{t}/{solver}/{T}/{dt}/{dts}/{cutoff}", features=dict(f, solver=solver, T=T, dt=dt, dts=dts, cutoff=cutoff),
+                                          model=m, solver=solver, T=T, dt=dt, dts=dts, vec=vec, cutoff=cutoff))
+        for method in (("RK45",) if chk.tier == "quick" else ("RK45", "DOP853", "LSODA")):
+            for vec in (False, True):
+                cases.append(dict(tag=f"{t}/scipy-{method}", features=dict(f, solver="scipy", method=method), model=m, solver="scipy",
+                                  method=method, T=1.0, dt=0.01, dts=0.1, vec=vec))
+    # the listed known finding: T is not a multiple of the sampling step and one more sample is due than rows exist
+    t, f, m = fam[0]
+    for solver in ("euler", "heun"):
+        cases.append(dict(tag=f"W-T-not-multiple/{solver}", features=dict(solver=solver, T=0.9, dt=0.1, dts=0.2), model=m, solver=solver,
+                          T=0.9, dt=0.1, dts=0.2, vec=False, cutoff=0.0))
+    driver.run_family(
+        chk, "run-vs-spec-iterates", cases, run_case, site="C03/run",
+        rule="models F1/F2/F6/F7/F8 x euler/heun x (T, dt, dts) grid with dts/dt in {1,2,3,5} x cut-offs (off-grid and on-grid) x "
+             "vectorize off/on: row count, index, first row and every value against spec_fixed_step(spec_rhs) at rtol 1e-7; scipy "
+             "RK45 (thorough: DOP853, LSODA) against a tight DOP853 reference on spec_rhs; distinct = distinct (model, solver, T, dt, dts, cutoff, vectorize)",
+        sample_of=lambda c: {k: v for k, v in c.items() if k not in ("model", "features")})
+
+
 def main():
     chk = Check("C03", "other")
     fb = solver_fallback(chk)
     chk.run_contracts("contracts.c03", fallback={"*": fb})
     for f in fb():
         chk.report_failure(f)
+    run_cases_for(chk)
     rc = chk.finish(
         explanation="Tier A (deductive, unbounded in the number of steps, the cadence and the state): the real "
                     "_solve_euler/_solve_heun loops satisfy: row k of the record is the k*m-th Euler/Heun iterate (row 0 = "
